@@ -49,7 +49,12 @@ type wl struct {
 	seed  int64
 	g     int // goroutines
 	iters int // operations per goroutine
+	// soft deadline: workers stop starting new operations after it (slow machines run fewer
+	// operations instead of overrunning the budget); a worker that never returns is reported
+	deadline time.Time
 }
+
+func (w *wl) more(i int) bool { return i < w.iters && time.Now().Before(w.deadline) }
 
 // par runs f on w.g goroutines, each with its own PRNG derived from the seed.
 func (w *wl) par(f func(id int, rng *rand.Rand)) {
@@ -71,7 +76,7 @@ func (w *wl) par(f func(id int, rng *rand.Rand)) {
 	go func() { wg.Wait(); close(done) }()
 	select {
 	case <-done:
-	case <-time.After(60 * time.Second):
+	case <-time.After(time.Until(w.deadline) + 20*time.Second):
 		fmt.Println("WORKLOAD-TIMEOUT")
 	}
 }
@@ -123,12 +128,12 @@ var scenarios = []scenario{
 	{"router", 20, []string{"router."}, wlRouter},
 	{"wrap-unary", 2, []string{"wrap.", "resource.Value.", "minibus."}, wlWrapUnary},
 	{"wrap-stream", 1, []string{"wrap.", "resource.Value.", "minibus."}, wlWrapStream},
-	{"stream-bidi", 4, []string{"wrap."}, wlStreamBidi},
+	{"stream-bidi", 3, []string{"wrap."}, wlStreamBidi},
 	{"group", 3, []string{"resource.Value.", "minibus."}, wlGroup},
 	{"electric", 2, []string{"electricpb.", "resource.", "minibus."}, wlElectric},
 	{"parent", 1, []string{"parentpb.", "resource.", "minibus."}, wlParent},
 	{"metadata", 1, []string{"metadatapb.", "resource.", "minibus."}, wlMetadata},
-	{"waste-hail", 2, []string{"wastepb.", "hailpb.", "resource.", "minibus."}, wlWasteHail},
+	{"waste-hail", 1, []string{"wastepb.", "hailpb.", "resource.", "minibus."}, wlWasteHail},
 }
 
 // ---- resource.Value ---------------------------------------------------------------------------
@@ -136,7 +141,7 @@ var scenarios = []scenario{
 func wlValue(w *wl) {
 	v := resource.NewValue(resource.WithInitialValue(&traits.Metadata{Name: "n"}), resource.WithNoDuplicates())
 	w.par(func(id int, rng *rand.Rand) {
-		for i := 0; i < w.iters; i++ {
+		for i := 0; w.more(i); i++ {
 			switch rng.Intn(6) {
 			case 0, 1:
 				msg := &traits.Metadata{Name: fmt.Sprint("n", id, i), Traits: []*traits.TraitMetadata{{Name: "t"}}, More: map[string]string{"k": fmt.Sprint(i)}}
@@ -181,7 +186,7 @@ func wlCollection(w *wl) {
 		resource.WithInitialRecord("a", &traits.Child{Name: "a"}), resource.WithNoDuplicates())
 	ids := []string{"a", "B", "c", "D", "e"}
 	w.par(func(id int, rng *rand.Rand) {
-		for i := 0; i < w.iters; i++ {
+		for i := 0; w.more(i); i++ {
 			k := ids[rng.Intn(len(ids))]
 			switch rng.Intn(9) {
 			case 0:
@@ -227,7 +232,7 @@ func wlCollection(w *wl) {
 func wlGenID(w *wl) {
 	c := resource.NewCollection()
 	w.par(func(id int, rng *rand.Rand) {
-		for i := 0; i < w.iters; i++ {
+		for i := 0; w.more(i); i++ {
 			var got string
 			res, err := c.Add("", &traits.Child{Name: fmt.Sprint(id, "-", i)}, resource.WithGenIDIfAbsent(), resource.WithIDCallback(func(s string) { got = s }))
 			readMsg(res)
@@ -247,7 +252,7 @@ func wlGenID(w *wl) {
 func wlBus(w *wl) {
 	var b minibus.Bus
 	w.par(func(id int, rng *rand.Rand) {
-		for i := 0; i < w.iters; i++ {
+		for i := 0; w.more(i); i++ {
 			switch rng.Intn(3) {
 			case 0, 1:
 				ctx, cancel := context.WithTimeout(context.Background(), 5*time.Millisecond)
@@ -286,7 +291,7 @@ func wlRouter(w *wl) {
 		router.WithOnChange(func(c router.Change) { changes.Store(c.Name, c.New) }))
 	names := []string{"a", "b", "f1", "f2", "fallback", "zz"}
 	w.par(func(id int, rng *rand.Rand) {
-		for i := 0; i < w.iters; i++ {
+		for i := 0; w.more(i); i++ {
 			n := names[rng.Intn(len(names))]
 			switch rng.Intn(4) {
 			case 0:
@@ -349,7 +354,7 @@ func wlWrapUnary(w *wl) {
 	model := onoffpb.NewModel()
 	client := onoffpb.WrapApi(&hdrServer{ModelServer: onoffpb.NewModelServer(model), linger: 2 * time.Millisecond})
 	w.par(func(id int, rng *rand.Rand) {
-		for i := 0; i < w.iters; i++ {
+		for i := 0; w.more(i); i++ {
 			var hdr, trl metadata.MD
 			opts := []grpc.CallOption{}
 			if rng.Intn(2) == 0 {
@@ -386,7 +391,7 @@ func wlWrapStream(w *wl) {
 	model := onoffpb.NewModel()
 	client := onoffpb.WrapApi(&hdrServer{ModelServer: onoffpb.NewModelServer(model)})
 	w.par(func(id int, rng *rand.Rand) {
-		for i := 0; i < w.iters; i++ {
+		for i := 0; w.more(i); i++ {
 			if id%2 == 0 {
 				_, _ = model.UpdateOnOff(&traits.OnOff{State: traits.OnOff_State(rng.Intn(3))})
 				continue
@@ -433,7 +438,7 @@ func wlWrapStream(w *wl) {
 // echoes, a client sender and a client receiver, with the caller's context cancelled at random.
 func wlStreamBidi(w *wl) {
 	w.par(func(id int, rng *rand.Rand) {
-		for i := 0; i < w.iters; i++ {
+		for i := 0; w.more(i); i++ {
 			parent, cancel := context.WithCancel(context.Background())
 			s := wrap.NewClientServerStream(parent)
 			ss, cs := s.Server(), s.Client()
@@ -509,7 +514,7 @@ func wlGroup(w *wl) {
 	strategies := []group.ExecutionStrategy{group.ExecutionStrategyAll, group.ExecutionStrategyMost, group.ExecutionStrategyAny,
 		group.ExecutionStrategyOne, group.ExecutionStrategyFast, group.ExecutionStrategyRace}
 	w.par(func(id int, rng *rand.Rand) {
-		for i := 0; i < w.iters; i++ {
+		for i := 0; w.more(i); i++ {
 			n := rng.Intn(4) + 1
 			members := make([]group.Member, n)
 			for k := range members {
@@ -548,7 +553,7 @@ func wlElectric(w *wl) {
 	_ = m.AddMode(&traits.ElectricMode{Id: "base", Title: "base", Normal: true})
 	w.par(func(id int, rng *rand.Rand) {
 		var mine []string
-		for i := 0; i < w.iters; i++ {
+		for i := 0; w.more(i); i++ {
 			switch rng.Intn(11) {
 			case 0:
 				mode, err := m.CreateMode(&traits.ElectricMode{Title: fmt.Sprint(id, i)})
@@ -607,7 +612,7 @@ func wlParent(w *wl) {
 	names := []string{"c1", "c2", "c3"}
 	tn := []trait.Name{trait.OnOff, trait.Light, trait.Metadata, trait.Electric, trait.Parent}
 	w.par(func(id int, rng *rand.Rand) {
-		for i := 0; i < w.iters; i++ {
+		for i := 0; w.more(i); i++ {
 			n := names[rng.Intn(len(names))]
 			switch rng.Intn(6) {
 			case 0, 1:
@@ -652,7 +657,7 @@ func wlMetadata(w *wl) {
 	m := metadatapb.NewModel()
 	tn := []string{"a", "b", "c"}
 	w.par(func(id int, rng *rand.Rand) {
-		for i := 0; i < w.iters; i++ {
+		for i := 0; w.more(i); i++ {
 			switch rng.Intn(5) {
 			case 0:
 				res, _ := m.UpdateTraitMetadata(&traits.TraitMetadata{Name: tn[rng.Intn(len(tn))], More: map[string]string{fmt.Sprint("k", rng.Intn(3)): fmt.Sprint(i)}})
@@ -680,7 +685,7 @@ func wlWasteHail(w *wl) {
 	hm := hailpb.NewModel()
 	w.par(func(id int, rng *rand.Rand) {
 		var mine []string
-		for i := 0; i < w.iters; i++ {
+		for i := 0; w.more(i); i++ {
 			switch rng.Intn(8) {
 			case 0:
 				res, _ := wm.GenerateWasteRecord(nil)
